@@ -170,3 +170,75 @@ package template
 //@   ensures#inv ScopeOK(m) && m.registry == old(m.registry) && m.imports == old(m.imports) && m.visibleNames == old(m.visibleNames) && result != nil && fresh(result)
 //@   ensures#names forall n string :: old(n in m.visibleNames) ==> (n in m.visibleNames)
 //@   assigns m.imports, m.visibleNames, m.registry.imports, m.registry.importQualifiers, fresh
+
+// ---- variable names (C14: valid identifiers that capture nothing; C01: nor identifiers the templates use) ----
+//@ func deCapitalise props=C09,C14
+//@   requires len(s) > 0
+//@   ensures len(result) > 0
+//@   assigns nothing
+//@ func capitalise props=C09,C14
+//@   requires len(s) > 0
+//@   ensures len(result) > 0
+//@   assigns nothing
+// strings.ToLower/ToUpper of a one-byte string is non-empty (assumed).
+//@ axiom lower_nonempty: forall s string :: len(s) > 0 ==> len(strings.ToLower(s)) > 0 && len(strings.ToUpper(s)) > 0
+// Names and printed forms of go/types objects are non-empty (assumed).
+//@ axiom typename_nonempty: forall o *types.TypeName :: len(o.Name()) > 0
+//@ axiom basic_string_nonempty: forall b *types.Basic :: len(b.String()) > 0
+
+//@ func basicTypeVarName props=C14
+//@   ensures len(result) > 0
+//@   assigns nothing
+
+//@ func varNameForType props=C14,C09
+//@   ensures len(result) > 0
+//@   assigns nothing
+
+// Generated names never are Go keywords, predeclared type names, or the identifiers the built-in
+// templates use themselves (mock, callInfo).
+//@ define reserved(n string) bool = n == "mock" || n == "callInfo" || n == "break" || n == "default" || n == "func" || n == "interface" || n == "select" || n == "case"
+//@    || n == "defer" || n == "go" || n == "map" || n == "struct" || n == "chan" || n == "else" || n == "goto" || n == "package" || n == "switch" || n == "const"
+//@    || n == "fallthrough" || n == "if" || n == "range" || n == "type" || n == "continue" || n == "for" || n == "import" || n == "return" || n == "var"
+//@    || n == "string" || n == "bool" || n == "byte" || n == "rune" || n == "uintptr" || n == "int" || n == "int8" || n == "int16" || n == "int32" || n == "int64"
+//@    || n == "uint" || n == "uint8" || n == "uint16" || n == "uint32" || n == "uint64" || n == "float32" || n == "float64" || n == "complex64" || n == "complex128"
+//@ func varName props=C14,C01
+//@   requires vr != nil
+//@   ensures#named vr.Name() != "" && vr.Name() != "_" ==> result == concat(vr.Name(), suffix)
+//@   ensures#generated (vr.Name() == "" || vr.Name() == "_") ==> !reserved(result)
+//@   assigns nothing
+
+// AddVar: one variable of the scope per signature variable, with the replacement type when one is
+// configured (C13: only the replacement's package is imported for it), named without collision (C14).
+//@ func (*MethodScope).AddVar props=C13,C14,C01,C02
+//@   requires ScopeOK(m) && vr != nil
+//@   ensures#inv ScopeOK(m) && m.registry == old(m.registry) && m.imports == old(m.imports) && m.visibleNames == old(m.visibleNames)
+//@   ensures#var err == nil ==> result != nil && fresh(result) && result.vr == vr && result.pkgPath == m.pkgPath && result.imports != nil
+//@   ensures#typ err == nil && replacement == nil ==> result.typ == vr.Type()
+//@   ensures#appended err == nil ==> len(m.vars) == old(len(m.vars)) + 1 && m.vars[old(len(m.vars))] == result && (forall i int :: 0 <= i && i < old(len(m.vars)) ==> m.vars[i] == old(m.vars[i]))
+//@   ensures#failed err != nil ==> m.vars == old(m.vars) && result == nil
+//@   ensures#names forall n string :: old(n in m.visibleNames) ==> (n in m.visibleNames)
+//@   ensures#freshname err == nil ==> !(result.Name in m.visibleNames)
+//@   ensures#oldvars forall v *Var :: old(allocated(v)) ==> *v == old(*v)
+//@   returns#typename err == nil && replacement == nil ==> called("AddName") == 1
+//@   returns#replimports err == nil && replacement != nil ==> (forall p string :: (p in imports) ==> p == objectPkg.Types.Path())
+//@   returns#repltyp err == nil && replacement != nil ==> object != nil && v.typ == object.Type() && object == objectPkg.Types.Scope().Lookup(replacement.TypeName)
+//@   assigns m.vars, m.imports, m.visibleNames, m.registry.imports, m.registry.importQualifiers, fresh
+
+// After the pass, the variables of the scope have pairwise distinct names, none of which was visible
+// before (qualifiers, type strings, earlier names), and all of them are visible now.
+//@ func (*MethodScope).ResolveVariableNameCollisions props=C14,C15
+//@   requires m.visibleNames != nil && (forall i int :: 0 <= i && i < len(m.vars) ==> m.vars[i] != nil) && (forall i, j int :: 0 <= i && i < j && j < len(m.vars) ==> m.vars[i] != m.vars[j])
+//@   ensures#distinct forall i, j int :: 0 <= i && i < j && j < len(m.vars) ==> m.vars[i].Name != m.vars[j].Name
+//@   ensures#notvisible forall i int :: 0 <= i && i < len(m.vars) ==> (forall q string :: q == m.vars[i].Name ==> !old(q in m.visibleNames))
+//@   ensures#visible forall i int :: 0 <= i && i < len(m.vars) ==> (m.vars[i].Name in m.visibleNames)
+//@   ensures#names forall n string :: old(n in m.visibleNames) ==> (n in m.visibleNames)
+//@   ensures#frame m.vars == old(m.vars) && (forall v *Var :: v.vr == old(v.vr) && v.typ == old(v.typ) && v.imports == old(v.imports) && v.pkgPath == old(v.pkgPath))
+//@   loop 0: invariant m.vars == old(m.vars) && m.visibleNames == old(m.visibleNames) && m.visibleNames != nil
+//@   loop 0: invariant#distinct forall a, b int :: 0 <= a && a < b && b < $i ==> m.vars[a].Name != m.vars[b].Name
+//@   loop 0: invariant#notvisible forall a int :: 0 <= a && a < $i ==> (forall q string :: q == m.vars[a].Name ==> !old(q in m.visibleNames))
+//@   loop 0: invariant#visible forall a int :: 0 <= a && a < $i ==> (m.vars[a].Name in m.visibleNames)
+//@   loop 0: invariant#names forall n string :: old(n in m.visibleNames) ==> (n in m.visibleNames)
+//@   loop 0: invariant#frame forall v *Var :: v.vr == old(v.vr) && v.typ == old(v.typ) && v.imports == old(v.imports) && v.pkgPath == old(v.pkgPath)
+//@   loop 0: invariant#later forall a int :: $i <= a && a < len(m.vars) ==> m.vars[a].Name == old(m.vars[a].Name)
+//@   loop 0: invariant#othermaps forall nn map[string]any :: nn != m.visibleNames ==> unchanged(nn)
+//@   assigns m.visibleNames, Var.Name
